@@ -161,3 +161,111 @@ def param_index(func, name, skip_self=True):
 def arg_of(call, func, name):
     """expression passed for parameter `name` of `func` at `call` (None if defaulted)"""
     return kw(call, name, param_index(func, name))
+
+
+# ------------------------------------------------------------------ R00.debug-pure
+DEBUG_TESTS = {"self.debug", "debug", "self.debug_trace", "self.debug_layout"}
+DEBUG_ATTR_PREFIXES = ("debug", "_debug", "_dot_trace", "_trace")
+_MUTATING = {
+    "append", "extend", "insert", "remove", "pop", "clear", "update", "add", "setdefault", "sort",
+    "reverse", "discard", "popitem",
+}
+
+
+def _is_debug_test(e):
+    if unparse(e) in DEBUG_TESTS:
+        return True
+    if isinstance(e, ast.BoolOp) and isinstance(e.op, ast.And):
+        return any(_is_debug_test(v) for v in e.values)
+    return False
+
+
+def _walk_scope(node):
+    """walk without entering nested defs / lambdas / comprehensions (own scopes)"""
+    todo = [node]
+    while todo:
+        x = todo.pop()
+        yield x
+        for c in ast.iter_child_nodes(x):
+            if isinstance(c, (ast.FunctionDef, ast.AsyncFunctionDef, ast.Lambda, ast.ClassDef,
+                              ast.ListComp, ast.SetComp, ast.DictComp, ast.GeneratorExp)):
+                continue
+            todo.append(c)
+
+
+def rule_debug_pure(rep, funcs):
+    """Every rule analyses the drivers with debug output off.  That is only an abstraction of
+    the debug=True parser if the code under a debug test observes and prints but does not
+    feed anything back: checked for every function the property's rules consulted."""
+    with rep.rule(
+        "R00.debug-pure",
+        "in the functions this property's rules consulted, code guarded by a debug flag binds no "
+        "name that is read outside debug code, stores only trace bookkeeping attributes, mutates "
+        "no object and transfers no control: a debug=True parser behaves like the analysed one",
+    ) as r:
+        n_blocks = 0
+        for f in sorted(funcs, key=lambda f: f.qual):
+            blocks = [n for n in walk_no_nested(f.node) if isinstance(n, ast.If) and _is_debug_test(n.test)]
+            if not blocks:
+                continue
+            inside = set()
+            for b in blocks:
+                for st in b.body:
+                    for x in ast.walk(st):
+                        inside.add(id(x))
+            loads_outside = {
+                x.id for x in ast.walk(f.node)
+                if isinstance(x, ast.Name) and isinstance(x.ctx, ast.Load) and id(x) not in inside
+            }
+            for b in blocks:
+                n_blocks += 1
+                bad = None
+                for st in b.body:
+                    loops = 0
+                    for x in _walk_scope(st):
+                        if isinstance(x, ast.Name) and isinstance(x.ctx, ast.Store) and x.id in loads_outside:
+                            bad = (x, f"binds `{x.id}`, which is read outside the debug code")
+                        elif isinstance(x, (ast.Attribute, ast.Subscript)) and isinstance(x.ctx, (ast.Store, ast.Del)):
+                            base = x
+                            while isinstance(base, ast.Subscript):
+                                base = base.value
+                            ok = (
+                                isinstance(base, ast.Attribute) and is_name(base.value, "self")
+                                and base.attr.startswith(DEBUG_ATTR_PREFIXES)
+                            ) or (isinstance(base, ast.Name) and base.id not in loads_outside and base.id not in f.params)
+                            if not ok:
+                                bad = (x, f"stores into `{unparse(x)[:50]}`")
+                        elif isinstance(x, (ast.Return, ast.Raise)):
+                            bad = (x, f"leaves the function (`{unparse(x)[:40]}`)")
+                        elif isinstance(x, (ast.Break, ast.Continue)):
+                            # allowed only for loops that live inside the debug block
+                            anc = [a for a in ancestors(x)]
+                            inner = False
+                            for a in anc:
+                                if a is b:
+                                    break
+                                if isinstance(a, (ast.For, ast.While)):
+                                    inner = True
+                                    break
+                            if not inner:
+                                bad = (x, "breaks/continues a loop of the normal code")
+                        elif isinstance(x, ast.Call) and isinstance(x.func, ast.Attribute) and x.func.attr in _MUTATING:
+                            recv = x.func.value
+                            rb = recv
+                            while isinstance(rb, (ast.Attribute, ast.Subscript)):
+                                rb = rb.value
+                            local = isinstance(rb, ast.Name) and rb.id not in loads_outside and rb.id not in f.params
+                            trace = isinstance(recv, ast.Attribute) and is_name(recv.value, "self") and recv.attr.startswith(DEBUG_ATTR_PREFIXES)
+                            if not (local or trace):
+                                bad = (x, f"mutates `{unparse(recv)[:40]}`")
+                r.check(
+                    bad is None,
+                    f"{f.qual_in_module}: debug block at line {b.lineno} only observes",
+                    f"{f.qual_in_module}:debug-block",
+                    f"{f.qual_in_module}: code under `if {unparse(b.test)}:` {bad[1] if bad else ''}: with "
+                    "debug=True the parser computes with a value made for the trace output (results differ "
+                    "from the debug=False parser the rules analyse)",
+                    node=bad[0] if bad else b,
+                )
+        r.fact("functions_consulted", len(funcs))
+        r.fact("debug_blocks_checked", n_blocks)
